@@ -170,6 +170,8 @@ class XArray:
         if not isinstance(key, tuple):
             key = (key,)
         key = list(key)
+        if any(isinstance(k, XArray) and k.ndim >= 2 for k in key) and not any(k is None for k in key):
+            return self._resolve_general(key)
         # expand ellipsis
         n_real = sum(1 for k in key if k is not None and k is not Ellipsis)
         if any(k is Ellipsis for k in key):
@@ -286,6 +288,57 @@ class XArray:
             for ao in adv_offs:
                 for ca in _iproduct(*after):
                     offs.append(sum(cb) + ao + sum(ca))
+        return shape, offs
+
+    def _resolve_general(self, key):
+        """numpy's advanced indexing with index arrays of any rank mixed with slices: the index arrays (and integers)
+        broadcast together; their block sits where they stand when they are adjacent, first otherwise"""
+        key = list(key)
+        n_real = sum(1 for k in key if k is not Ellipsis)
+        if any(k is Ellipsis for k in key):
+            i = next(j for j, k in enumerate(key) if k is Ellipsis)
+            key[i : i + 1] = [slice(None)] * (self.ndim - n_real)
+        else:
+            key += [slice(None)] * (self.ndim - n_real)
+        if len(key) != self.ndim:
+            raise XArrayError(f"too many indices for shape {self.shape}")
+        strides = self._strides()
+        advpos = [p for p, k in enumerate(key) if not isinstance(k, slice)]
+        arrs = {}
+        bshape = ()
+        for p in advpos:
+            k = key[p]
+            if isinstance(k, bool):
+                raise XArrayError("boolean index unsupported")
+            a = k if isinstance(k, XArray) else XArray.from_nested(k) if isinstance(k, (list, tuple, range)) else XArray((), [k])
+            arrs[p] = a
+            bshape = XArray._bshape(bshape, a.shape)
+        nb = _prod(bshape)
+        adv_offs = [0] * nb
+        for p in advpos:
+            n = self.shape[p]
+            a = arrs[p]
+            data = a.broadcast_to(bshape).data if bshape else a.data
+            for j, v in enumerate(data):
+                if isinstance(v, Fraction) and v.denominator == 1:
+                    v = int(v)
+                if not isinstance(v, int) or isinstance(v, bool):
+                    raise XArrayError(f"non-integer index {v!r}")
+                if not -n <= v < n:
+                    raise IndexError(f"index {v} out of bounds for axis {p} with size {n}")
+                adv_offs[j] += (v % n) * strides[p]
+        adjacent = advpos == list(range(advpos[0], advpos[-1] + 1))
+        basic = [p for p in range(self.ndim) if p not in arrs]
+        before = [p for p in basic if adjacent and p < advpos[0]]
+        after = [p for p in basic if p not in before]
+        ch = lambda p: [i * strides[p] for i in range(*key[p].indices(self.shape[p]))]
+        cb, ca = [ch(p) for p in before], [ch(p) for p in after]
+        shape = tuple(len(c) for c in cb) + tuple(bshape) + tuple(len(c) for c in ca)
+        offs = []
+        for x in _iproduct(*cb):
+            for ao in adv_offs:
+                for y in _iproduct(*ca):
+                    offs.append(sum(x) + ao + sum(y))
         return shape, offs
 
     def __getitem__(self, key):
@@ -458,6 +511,27 @@ class XArray:
                 tot = tot + x
             out.append(tot)
         return XArray(moved.shape[:-1], out) if moved.ndim > 1 else out[0]
+
+    def _extremum(self, axis, pick):
+        def best(vals):
+            b = vals[0]
+            for x in vals[1:]:
+                b = pick(b, x)
+            return b
+
+        if axis is None:
+            return best(list(self.data))
+        axis = int(axis) % self.ndim
+        moved = self.transpose(*([a for a in range(self.ndim) if a != axis] + [axis]))
+        n = self.shape[axis]
+        out = [best(list(moved.data[i : i + n])) for i in range(0, moved.size, n)]
+        return XArray(moved.shape[:-1], out) if moved.ndim > 1 else out[0]
+
+    def max(self, axis=None):
+        return self._extremum(axis, lambda a, b: b if b > a else a)
+
+    def min(self, axis=None):
+        return self._extremum(axis, lambda a, b: b if b < a else a)
 
     def __eq__(self, o):
         if isinstance(o, XArray):
